@@ -261,7 +261,10 @@ class tbl_init:
               'columns': 'Optional[List[Column]]', 'indexes': 'Optional[List[Index]]', 'note': 'Union[None,Note,str]',
               'header_color': 'Optional[str]', 'comment': 'Optional[str]', 'abstract': 'bool',
               'properties': 'Optional[Dict[str]]'}
-    allowed = ('ColumnNotFoundError',)      # an index over a column of another table (add_index refuses it)
+    # an index over a column of another table is refused by add_index: possible only when indexes are given
+
+    def maybe_ColumnNotFoundError(self, name, schema, alias, columns, indexes, note, header_color, comment, abstract, properties):
+        return indexes is not None and len(indexes) > 0
 
     def requires_distinct_columns(self, name, schema, alias, columns, indexes, note, header_color, comment, abstract, properties):
         return columns is None or all(all(a == b or x is not y for b, y in enumerate(columns)) for a, x in enumerate(columns))
